@@ -293,6 +293,8 @@ func init() {
 	//   R<nonces>[@f]  FilterDeposits over deposits with these nonces (all matching the request) -> r:<nonces>
 	//   an operation that would block on propMutex -> hang (not called)
 	//   => per op `<result>~<statuses of nonces 0..n-1>`, '/'-separated, then `#free|held`
+	// histstrict: the same run, judged by the Lean driver against the property AS STATED (no sequentiality proviso)
+	ops["C17.histstrict"] = func(a []string) string { return ops["C17.hist"](a) }
 	ops["C17.hist"] = func(a []string) string {
 		n := int(u64(a[0]))
 		b := newC3Btc("-")
@@ -650,6 +652,19 @@ func genC17(g *G) {
 			g.Emit("hist", "3", "D0,1,2/"+o1+"/R0,1,2/"+o2+"/D0,1,2/S0=2/R0,1,2/D0,1,2")
 			g.Emit("hist", "3", "D0,1/"+o2+"/"+o1+"/R0,1/D0,1")
 		}
+	}
+	// ---- KNOWN FINDING C17-overlap-late-failure: a retry releases a deposit whose execution is still in flight; it is
+	//      delivered again; one execution succeeds and the other one fails LATER: the failure overwrites `executed`.
+	//      Judged strictly as `histstrict` (reported as known), and again as `hist` (sequentiality proviso) so that
+	//      every other deviation on the same inputs is still reported.
+	for _, ns := range []string{"0", "1", "0,1", "1,2"} {
+		for _, tail := range []string{"S0/F1", "S1/F0", "S0/T1", "S1/T0", "F0/S1", "F1/S0", "S0/F1/R0,1,2/D0,1,2"} {
+			h := "D" + ns + "/R" + ns + "/D" + ns + "/" + tail
+			g.Emit("histstrict", "3", h)
+			g.Emit("hist", "3", h)
+		}
+		g.Emit("histstrict", "3", "D"+ns+"/S0/R"+ns+"/D"+ns)
+		g.Emit("histstrict", "3", "D"+ns+"/F0/R"+ns+"/D"+ns+"/S1/R"+ns+"/D"+ns)
 	}
 	// ---- a stale session: released by a retry while stuck, re-delivered, executed by the newer session; then the
 	//      old watcher runs into its signing time-out (real code path). Any later retry / delivery must leave the
